@@ -14,9 +14,10 @@ import (
 // they were). Few programs, each recursing to the interpreter's own bound; fixed expectations.
 
 type depthCase struct {
-	Name string `json:"name"`
-	Src  string `json:"src"`
-	Want string `json:"want"` // displayed form of the program's value
+	Name    string            `json:"name"`
+	Src     string            `json:"src"`
+	Want    string            `json:"want"` // displayed form of the program's value
+	Modules map[string]string `json:"modules,omitempty"`
 }
 
 const endless = "如何无尽？\n    输入N\n    输出（无尽：N + 1）\n"
@@ -24,32 +25,41 @@ const endless = "如何无尽？\n    输入N\n    输出（无尽：N + 1）\n"
 var depthCases = []depthCase{
 	{"handled by the method that started the recursion; its input is named like a variable of the caller",
 		"令甲 = 5\n令乙 = 【1，2】\n" + endless + "如何守护？\n    输入甲\n    令内 = （无尽：甲）\n    输出内\n    拦截异常：\n        输出“已拦截”\n令果 = （守护：1）\n令丙 = 甲 + 1\n输出【果，甲，丙，乙】",
-		"[已拦截，5，6，[1，2]]"},
+		"[已拦截，5，6，[1，2]]", nil},
 	{"handled two calls above the recursion, the caller declares the names the callee used",
 		"令甲 = 5\n" + endless + "如何中？\n    输入乙\n    令丙 = 7\n    输出（无尽：乙）\n如何守护？\n    输入甲、乙、丙\n    输出（中：甲）\n    拦截异常：\n        输出“已拦截”\n令果 = （守护：1、2、3）\n令乙 = 8\n令丙 = 9\n输出【果，甲，乙，丙】",
-		"[已拦截，5，8，9]"},
+		"[已拦截，5，8，9]", nil},
 	{"handled twice in a row by the same method, inside a loop of the caller",
 		"令甲 = 0\n" + endless + "如何守护？\n    输入次\n    输出（无尽：次）\n    拦截异常：\n        输出次\n以值遍历【10，20】：\n    令局 = （守护：值）\n    甲 = 甲 + 局\n输出甲",
-		"30"},
+		"30", nil},
 	{"handled inside a method of an object; 其 of the calling method afterwards",
 		endless + "定义盒：\n    其量 = 3\n    如何试？\n        输入量\n        输出（无尽：量）\n        拦截异常：\n            输出-1\n    如何跑？\n        令果 = 以此（试：100）\n        输出【果，其量】\n输出以（新建盒）（跑）",
-		"[-1，3]"},
+		"[-1，3]", nil},
 	{"handled by the program body itself, a second program-level statement would not run",
 		"令甲 = 5\n" + endless + "（无尽：1）\n输出“到不了”\n拦截异常：\n    输出“已拦截”",
-		"已拦截"},
+		"已拦截", nil},
 	{"a handler whose class is a number stands before the matching one: it matches nothing, the exception goes on to the next handler",
 		"令A = 1 / 0\n拦截100：\n    输出 5\n拦截异常：\n    输出 6",
-		"6"},
+		"6", nil},
 	{"a handler whose class is a number is the only one, inside a method: the exception reaches the caller's handler unchanged",
 		"如何试？\n    输出 1 / 0\n    拦截3.5：\n        输出 5\n令果 = （试）\n输出“到不了”\n拦截异常：\n    输出其内容",
-		"被除数不得为0"},
+		"被除数不得为0", nil},
+	{"the predefined type held under another name: the handler written with THAT name matches",
+		"令E = 异常\n如何F？\n    抛出E：“m”！\n    拦截E：\n        输出“caught E”\n    拦截异常：\n        输出“caught 异常”\n输出（F）",
+		"caught E", nil},
+	{"a type of an imported module with the same NAME as a type of the main program is another class: the handler for main's type lets it pass",
+		"导入“甲”的F\n定义错误：\n    其内容 = “main's”\n如何G？\n    输出（F）\n    拦截错误：\n        输出“wrong handler”\n输出（G）\n拦截异常：\n    输出“not this one either”",
+		"error", map[string]string{"甲": "定义错误：\n    其内容 = “module's”\n如何F？\n    抛出错误：1！\n"}},
+	{"... while main's own object of that name is caught by it",
+		"导入“甲”的F\n定义错误：\n    其内容 = “main's”\n如何G？\n    抛出错误：1！\n    拦截错误：\n        输出其内容\n输出（G）",
+		"main's", map[string]string{"甲": "定义错误：\n    其内容 = “module's”\n如何F？\n    抛出错误：1！\n"}},
 	{"not handled at all: the program ends with the fault",
 		endless + "（无尽：1）\n输出“到不了”",
-		"error"},
+		"error", nil},
 }
 
 func checkDepth(c depthCase) []h.Failure {
-	o := h.Run(c.Src, h.Opts{EvalTicks: 200000000, MaxDepth: -1, WantVM: true})
+	o := h.Run(c.Src, h.Opts{EvalTicks: 200000000, MaxDepth: -1, WantVM: true, Modules: c.Modules})
 	desc := fmt.Sprintf("%s\nprogram:\n%s", c.Name, c.Src)
 	switch o.Kind {
 	case h.KPanic, h.KBudget, h.KNil:
